@@ -20,6 +20,13 @@ def run_case(case):
     mod = importlib.import_module("props." + case["property"])
     if hasattr(mod, "preimport"):
         mod.preimport()
+    # a violation that reproduces only after the tasks its worker ran earlier is history-dependent: the recorded prefix is
+    # executed first (in order, results discarded) when the artefact carries one
+    for pt in case.get("prefix_tasks") or []:
+        try:
+            mod.run_task(pt)
+        except Exception:
+            pass
     res = mod.run_task(case["task"])
     hits = []
     for v in res.get("violations", []):
